@@ -49,7 +49,7 @@ type c04Member struct {
 	Seed uint32 `json:"seed,omitempty"` //
 	R1   string `json:"r1,omitempty"`   // "" | stop | short | long | bada0 | badot | replay | wrongmid | mismatch | negate
 	R2   string `json:"r2,omitempty"`   // "" | stop | flip | scalar | plusn | nonce | wrongkey | swap | short | long | wrongmid
-	R3   string `json:"r3,omitempty"`   // "" | stop | false | mixed | badkeysym | badsig | nonmember | self | impersonate | badconfirm
+	R3   string `json:"r3,omitempty"`   // "" | stop | false | mixed | badkeysym | badsig | nonmember | self | impersonate | badconfirm | forged
 	Fix1 bool   `json:"fix1,omitempty"` // after a rejected round-k deviation submit what the daemon would (else the member is gone)
 	Fix2 bool   `json:"fix2,omitempty"`
 	Fix3 bool   `json:"fix3,omitempty"`
@@ -88,8 +88,8 @@ var (
 	r1W    = []int{3, 4, 4, 5, 5, 6, 3, 8, 5}
 	r2Devs = []string{"stop", "flip", "scalar", "plusn", "nonce", "wrongkey", "swap", "short", "long", "wrongmid"}
 	r2W    = []int{3, 9, 9, 3, 5, 5, 7, 3, 3, 2}
-	r3Devs = []string{"stop", "false", "mixed", "badkeysym", "badsig", "nonmember", "self", "impersonate", "badconfirm"}
-	r3W    = []int{3, 11, 6, 6, 6, 4, 3, 3, 7}
+	r3Devs = []string{"stop", "false", "mixed", "badkeysym", "badsig", "nonmember", "self", "impersonate", "badconfirm", "forged"}
+	r3W    = []int{3, 11, 6, 6, 6, 4, 3, 3, 7, 16}
 )
 
 func genC04(rt *rapid.T) c04Case {
@@ -297,6 +297,7 @@ type item struct {
 	r2         *r2Attempt
 	complaints []cdesc
 	priv       tss.Scalar
+	forged     []tss.MemberID // members other than the sender that are named as complainant inside the message
 }
 
 type world struct {
@@ -956,6 +957,96 @@ func (w *world) buildR3(m *mem, deviate bool) *item {
 		it.complaints = append(it.complaints, w.describe(m, *c, genuine, devk))
 		all = append(all, *c)
 		it.msg = tsstypes.NewMsgComplain(w.gid, all, m.acct.Addr.String())
+	case "forged":
+		// One MsgComplain whose first complaint(s) are the sender's own (so the sender check passes) and which carries,
+		// at position 1 or later, a complaint in the name of ANOTHER member. A complaint message speaks for exactly one
+		// member, its sender: the whole message must be refused and the named member - who sent nothing - must not be
+		// blamed for the "false complaint".
+		c, ok := w.genuineComplaint(m, r)
+		if !ok {
+			w.v.Count("dev_inapplicable", 1)
+			return nil
+		}
+		var all []tsstypes.Complaint
+		for _, dc := range complaints { // what the daemon found ...
+			it.complaints = append(it.complaints, w.describe(m, dc, true, "daemon"))
+			all = append(all, dc)
+		}
+		if len(all) == 0 { // ... or a complaint about a correct share
+			it.complaints = append(it.complaints, w.describe(m, *c, true, devk))
+			all = append(all, *c)
+		}
+		pos := 1
+		if v%6 == 5 {
+			pos = 2 + (v/6)%2
+		}
+		for len(all) < pos { // more own complaints in front of the forged one
+			o := w.target(m, m.spec.To+len(all))
+			oc, ok := w.genuineComplaint(m, o)
+			if !ok {
+				oc = c
+			}
+			it.complaints = append(it.complaints, w.describe(m, *oc, true, devk))
+			all = append(all, *oc)
+		}
+		if pos > len(all) {
+			pos = len(all)
+		}
+		victim := w.target(m, m.spec.To+1+v/48) // the member whose name is used
+		resp := m                               // whom the forged complaint accuses: anybody but the victim
+		if cands := w.others(victim); len(cands) > 0 {
+			resp = cands[(v/6+m.spec.To)%len(cands)]
+		}
+		f := tsstypes.Complaint{Complainant: victim.id, Respondent: resp.id, KeySym: c.KeySym, Signature: c.Signature}
+		kind := "own-proof"
+		switch (v / 6) % 8 {
+		case 0, 1, 2: // the sender's own (valid for the sender) key-sym and proof under the other member's name
+		case 3, 4, 5: // a well-formed proof made with a key nobody in the group owns
+			kind = "fresh-proof"
+			fk := tssworld.ScalarFrom("c04-forged", w.c.Seed, m.idx, victim.idx)
+			vi, ri := w.r1InfoOf(victim.id), w.r1InfoOf(resp.id)
+			if vi == nil || ri == nil {
+				break
+			}
+			sig, keySym, err := tss.SignComplaint(vi.OneTimePubKey, ri.OneTimePubKey, fk)
+			if err != nil {
+				w.fail("harness", "SignComplaint: %v", err)
+				return nil
+			}
+			f.KeySym, f.Signature = keySym, sig
+		case 6: // the victim's one-time public key as key-sym
+			kind = "pubkey-as-keysym"
+			if vi := w.r1InfoOf(victim.id); vi != nil {
+				f.KeySym = vi.OneTimePubKey
+			}
+		default: // not even a point / a signature
+			kind = "garbage"
+			if v%2 == 0 {
+				f.KeySym = tss.Point(clone(c.KeySym)[:len(c.KeySym)-1])
+			} else {
+				f.Signature = tss.ComplaintSignature(append(clone(c.Signature), 0x01))
+			}
+		}
+		all = append(all[:pos], append([]tsstypes.Complaint{f}, all[pos:]...)...)
+		fd := cdesc{complainant: f.Complainant, respondent: f.Respondent, label: devk}
+		it.complaints = append(it.complaints[:pos], append([]cdesc{fd}, it.complaints[pos:]...)...)
+		it.forged = []tss.MemberID{victim.id}
+		it.wellFormed = false // must be refused as a whole
+		it.msg = tsstypes.NewMsgComplain(w.gid, all, m.acct.Addr.String())
+		w.v.Class("complain-mixed-complainants")
+		if pos == 1 {
+			w.v.Class("complain-mixed-complainants:pos=1")
+		} else {
+			w.v.Class("complain-mixed-complainants:pos>=2")
+		}
+		w.v.Class("complain-mixed-complainants:" + kind)
+		if victim.strict {
+			w.v.Class("complain-mixed-complainants:names-strict-member")
+		}
+		w.v.Count("complain_mixed_complainants", 1)
+		if pos == 1 && kind != "garbage" {
+			w.v.Count("complain_mixed_complainants_pos1_wellformed", 1)
+		}
 	case "badconfirm":
 		priv, mid, ctx := own, m.id, w.gr.DKGContext
 		if priv == nil {
@@ -1136,6 +1227,19 @@ func (w *world) observe(res *sim.BlockResult) {
 				}
 				w.fail(sig, "%s %s (%s) at height %d rejected: code=%d log=%q (n=%d t=%d, model status %v)", it.kind, who, it.label, res.Height, tr.Code, tr.Log, w.n, w.t, w.status)
 			} else {
+				if len(it.forged) > 0 { // what did the message do to the members it merely names?
+					mal := w.malicious()
+					for _, id := range it.forged {
+						if vm := w.mems[id-1]; mal[id] && len(vm.reasons) == 0 {
+							sig := "C04/blamed-without-cause"
+							if vm.strict {
+								sig = "C04/honest-blamed"
+							}
+							w.fail(sig, "member %d is marked malicious at height %d: member %d sent one MsgComplain (accepted, code 0) in which a later complaint names member %d as complainant; member %d sent no complaint (n=%d t=%d)",
+								id, res.Height, it.m.id, id, id, w.n, w.t)
+						}
+					}
+				}
 				w.fail("C04/bad-accepted", "%s %s (%s) at height %d was accepted although: %s (n=%d t=%d)", it.kind, who, it.label, res.Height, why, w.n, w.t)
 			}
 			return
@@ -1583,7 +1687,7 @@ type action struct {
 }
 
 var rejectedDevs = map[string]bool{"short": true, "long": true, "bada0": true, "badot": true, "replay": true, "wrongmid": true,
-	"self": true, "impersonate": true, "badconfirm": true}
+	"self": true, "impersonate": true, "badconfirm": true, "forged": true}
 
 func (w *world) stageActions(stage int) []action {
 	var acts []action
